@@ -55,7 +55,7 @@ func c07Order(c *Ctx) {
 	claim := p.CallTo("ConsumerGroupHandler.ConsumeClaim")
 	goConsume := func(it Item) bool {
 		f := p.GoTarget(it)
-		return f != nil && hasItem(f, p.CallTo("consumerGroupSession.consume"))
+		return f != nil && (p.Name(f) == "consumerGroupSession.consume" || hasItem(f, p.CallTo("consumerGroupSession.consume")))
 	}
 	if fn := c.NeedFn(rule, "newConsumerGroupSession"); fn != nil {
 		reg := WholeFn(fn)
@@ -170,7 +170,7 @@ func c07ClaimWG(c *Ctx) {
 		n := 0
 		for _, g := range fi.Find(func(it Item) bool {
 			f := p.GoTarget(it)
-			return f != nil && hasItem(f, p.CallTo("consumerGroupSession.consume"))
+			return f != nil && (p.Name(f) == "consumerGroupSession.consume" || hasItem(f, p.CallTo("consumerGroupSession.consume")))
 		}) {
 			n++
 			reg := WholeFn(fn)
@@ -377,7 +377,15 @@ func c07Fenced(c *Ctx) {
 		return out
 	}
 	jg, sg := groups("JoinGroupResponse.Err"), groups("SyncGroupResponse.Err")
-	c.Check(len(jg) >= 3 && strings.Join(jg, " | ") == strings.Join(sg, " | "), rule, fn, "sibling-switches", nil, "join and sync switches have the same case partition: "+strings.Join(jg, " | "),
+	// (the ErrNoError arm may be an `if` of its own: two groups — the fenced codes and the rebalance codes — are the
+	// least that must be there, and must be the same for both answers)
+	hasFenced := false
+	for _, g := range jg {
+		if strings.Contains(g, "ErrUnknownMemberId") {
+			hasFenced = true
+		}
+	}
+	c.Check(len(jg) >= 2 && hasFenced && strings.Join(jg, " | ") == strings.Join(sg, " | "), rule, fn, "sibling-switches", nil, "join and sync switches have the same case partition: "+strings.Join(jg, " | "),
 		"the join switch ["+strings.Join(jg, " | ")+"] and the sync switch ["+strings.Join(sg, " | ")+"] classify coordinator answers differently", nil)
 	unk, _ := p.ConstNamed("ErrUnknownMemberId")
 	ill, _ := p.ConstNamed("ErrIllegalGeneration")
